@@ -305,6 +305,10 @@ def check(repo: Repo, run: Run) -> None:
             continue
         if isinstance(v, ast.Call) and isinstance(v.func, ast.Attribute) and v.func.attr in ("get", "__getitem__") and ast.unparse(strip_cast(v.func.value)) == f"{me_rf}.functions":
             continue
+        if "identifiers" in ast.unparse(v) or "resolve_name" in ast.unparse(v) or ".value" in ast.unparse(v):
+            verdict_rf, why_rf = False, (f"resolve_function can return `{ast.unparse(v)[:60]}`, a *variable's* value, when the function table has no entry: a declared variable's "
+                                         "value is its annotation class (callable), so `limit(3)` with `limit` declared as int is IntType(3) instead of an evaluation error")
+            break
         if isinstance(v, ast.Subscript) and ast.unparse(strip_cast(v.value)).split(".")[-1] == "base_functions":
             verdict_rf, why_rf = False, f"resolve_function returns `{ast.unparse(v)[:50]}`: the built-in table is consulted directly, so a function supplied for this program never replaces a built-in"
             break
